@@ -74,8 +74,28 @@ DEFAULT = ["{%", "%}", "{{", "}}", "", ""]
 COMMENTS = ["{%", "%}", "{{", "}}", "{#", "#}"]
 
 
+def dl_of(d):
+    """delimiter set of a case: "default", "comments" (default + template_comments) or an explicit list of six strings"""
+    if isinstance(d, (list, tuple)):
+        return list(d)
+    return COMMENTS if d == "comments" else DEFAULT
+
+
 def delims(case):
-    return COMMENTS if case["d"] == "comments" else DEFAULT
+    return dl_of(case["d"])
+
+
+# custom delimiter sets for stream `delims`: non-colliding, none starts with whitespace, '-' or a word character
+# (Delims.plain); shorthand comments only as `{#` so that the liquid tag's line-comment marker stays `#`
+CUSTOM_DELIMS = [
+    ["<%", "%>", "<<", ">>", "", ""],
+    ["[%", "%]", "[[", "]]", "", ""],
+    ["{%", "%}", "${", "}$", "{#", "#}"],
+    ["<?", "?>", "<=", "=>", "", ""],
+    ["(%", "%)", "((", "))", "", ""],
+    ["<%%", "%%>", "<{{", "}}>", "", ""],
+    ["@|", "|@", "$|", "|$", "{#", "#}"],
+]
 
 
 # ----------------------------------------------------------------------------------------------
@@ -251,6 +271,8 @@ def starts_markup(d, t):
 
 def text_ok(d, s, nxt):
     """no opening delimiter begins inside the text (also not across the boundary to what follows)"""
+    if "{{" in s or "{%" in s or (s.endswith("{") and nxt[:1] in ("{", "%")):
+        return False  # `_tokenize_template` rejects content that starts with these two literally, whatever the delimiters
     return s != "" and not any(starts_markup(d, s[i:] + nxt) for i in range(len(s)))
 
 
@@ -473,9 +495,9 @@ def gen_markup(rng, d, names, depth=0):
 
 
 def gen_markup0(rng, d, names, depth=0):
-    dl = COMMENTS if d == "comments" else DEFAULT
+    dl = dl_of(d)
     kinds = ["output", "output", "assign", "echo", "inline", "liquid", "raw", "raw", "doc", "comment", "comment"]
-    if d == "comments":
+    if dl[4] != "":
         kinds += ["short", "short"]
     k = rng.choice(kinds)
     l, r = gen_flags(rng), gen_flags(rng)
@@ -552,7 +574,7 @@ def gen_text(rng):
 
 def gen_pieces(rng, d, n_items, names, depth=0, tail=""):
     """a well-formed piece list: markup items separated by optional text"""
-    dl = COMMENTS if d == "comments" else DEFAULT
+    dl = dl_of(d)
     items = []
     for _ in range(n_items):
         items.append(gen_markup(rng, d, names, depth))
@@ -577,6 +599,19 @@ def gen_pieces(rng, d, n_items, names, depth=0, tail=""):
     return ps
 
 
+def delims_cases(ctx):
+    """random piece lists under custom (plain, non-colliding) delimiter sets"""
+    rng = ctx.rng_for("delims")
+    out = []
+    for i in range(ctx.scale(1200, 15000)):
+        d = rng.choice(CUSTOM_DELIMS)
+        ps = gen_pieces(rng, d, rng.range(1, 5), [])
+        if not ps:
+            ps = [["text", "t"]]
+        out.append(mk_case(d, ps))
+    return out
+
+
 def random_cases(ctx):
     rng = ctx.rng_for("random")
     out = []
@@ -598,9 +633,16 @@ _ENVS: dict = {}
 def get_env(d):
     from liquid import Environment
 
-    if d not in _ENVS:
-        _ENVS[d] = Environment(template_comments=(d == "comments"))
-    return _ENVS[d]
+    key = tuple(d) if isinstance(d, (list, tuple)) else d
+    if key not in _ENVS:
+        if isinstance(d, (list, tuple)):
+            kw = dict(tag_start_string=d[0], tag_end_string=d[1], statement_start_string=d[2], statement_end_string=d[3])
+            if d[4]:
+                kw.update(template_comments=True, comment_start_string=d[4], comment_end_string=d[5])
+            _ENVS[key] = Environment(**kw)
+        else:
+            _ENVS[key] = Environment(template_comments=(d == "comments"))
+    return _ENVS[key]
 
 
 GROUPS = {
@@ -738,7 +780,7 @@ def facing_whitespace(ps):
 
 def case_tags(case):
     ps = case["ps"]
-    t = {case["d"]}
+    t = {case["d"] if isinstance(case["d"], str) else "delims=" + "".join(case["d"][:2])}
     for i, p in enumerate(ps):
         k = kind_of(p)
         t.add("kind=" + k)
@@ -862,7 +904,16 @@ class ScanStream(Stream):
         for _ in range(ctx.scale(4000, 60000)):
             d = "comments" if rng.chance(45) else "default"
             n = rng.range(1, 12)
-            out.append({"d": d, "s": "".join(rng.choice(SCAN_RANDOM_ATOMS) for _ in range(n))})
+            src = "".join(rng.choice(SCAN_RANDOM_ATOMS) for _ in range(n))
+            if rng.chance(25):
+                # the same string rewritten for a custom delimiter set (what is left of `{{` / `{%` is plain text there)
+                d = rng.choice(CUSTOM_DELIMS)
+                marks = ["{%", "%}", "{{", "}}", "{#", "#}"]
+                for i, m in enumerate(marks):
+                    src = src.replace(m, chr(0xE000 + i))
+                for i, m in enumerate(marks):
+                    src = src.replace(chr(0xE000 + i), d[i] if d[i] else m)
+            out.append({"d": d, "s": src})
         return out
 
     def impl(self, case):
@@ -897,7 +948,7 @@ class ScanStream(Stream):
         return any(m["kind"] != "content" for m in obs["matches"]) or len(obs["matches"]) >= 2
 
     def tags(self, case, obs):
-        t = {case["d"]}
+        t = {case["d"] if isinstance(case["d"], str) else "delims=" + "".join(case["d"][:2])}
         for m in obs["matches"]:
             t.add("kind=" + m["kind"])
         t.add("matches<=2" if len(obs["matches"]) <= 2 else "matches<=6" if len(obs["matches"]) <= 6 else "matches>6")
@@ -970,7 +1021,7 @@ class _PieceStream(Stream):
         self.exhaustive = family in ("triple", "pair")
 
     def cases(self, ctx):
-        return {"triple": triple_cases, "pair": pair_cases, "random": random_cases}[self.family](ctx)
+        return {"triple": triple_cases, "pair": pair_cases, "random": random_cases, "delims": delims_cases}[self.family](ctx)
 
     def impl(self, case):
         out = {}
@@ -1063,6 +1114,6 @@ class _PieceStream(Stream):
 
 def streams(ctx):
     out = [SpacesStream(), StripStream(), ScanStream()]
-    for fam in ("triple", "pair", "random"):
+    for fam in ("triple", "pair", "random", "delims"):
         out.append(_PieceStream(fam))
     return out
